@@ -240,6 +240,90 @@ fn sched_case(args: &Args, rng: &mut Rng, out: &mut Streams, dist: &mut Dist, sc
   dist.hit("chain");
 }
 
+/// Duplicate-txid scenario (outside C12's domain: BIP30-violating chain): a coinbase repeated
+/// byte for byte while its first copy is unspent, then spent.  The committed content then
+/// DOES depend on the schedule (the Lean model proves it: `c12_dup_txid_fails`); here the real
+/// indexer and the cache+commit model are followed under both schedules so that the model's
+/// account of this corner is tied to the code too.  No cross-schedule oracle is emitted.
+fn dup_scenario(out: &mut Streams, dist: &mut Dist, scratch: &Path) {
+  use bitcoin::{Amount, OutPoint, ScriptBuf, Sequence, Transaction, TxIn, TxOut, Witness, absolute::LockTime, script, transaction::Version};
+  let chain = "regtest";
+  let flags = Flags { sats: true, addr: true, tx: false, ins: true, runes: false };
+  let coinbase = |tag: i64, value: u64| Transaction {
+    version: Version(2),
+    lock_time: LockTime::ZERO,
+    input: vec![TxIn { previous_output: OutPoint::null(), script_sig: script::Builder::new().push_int(tag).into_script(), sequence: Sequence::MAX, witness: Witness::new() }],
+    output: vec![TxOut { value: Amount::from_sat(value), script_pubkey: chaingen::p2tr(7) }],
+  };
+  for sched in 0..2 {
+    let node = Node::new(chain, scratch);
+    let extra = vec!["--integration-test".to_string(), "--commit-interval".to_string(), "100".to_string()];
+    let ix = env::open(&node, scratch, flags, &extra, false);
+    let t = coinbase(1, 50 * 100_000_000);
+    let x = OutPoint { txid: t.compute_txid(), vout: 0 };
+    let b1 = Block { header: env::make_header(node.tip(), 1, 1), txdata: vec![t.clone()] };
+    let b1h = b1.block_hash();
+    let b2 = Block { header: env::make_header(b1h, 2, 2), txdata: vec![t.clone()] };
+    let b2h = b2.block_hash();
+    let spend = Transaction {
+      version: Version(2),
+      lock_time: LockTime::ZERO,
+      input: vec![TxIn { previous_output: x, script_sig: ScriptBuf::new(), sequence: Sequence::MAX, witness: Witness::new() }],
+      output: vec![TxOut { value: Amount::from_sat(50 * 100_000_000), script_pubkey: chaingen::p2wpkh(1) }],
+    };
+    let b3 = Block { header: env::make_header(b2h, 3, 3), txdata: vec![coinbase(3, 50 * 100_000_000), spend] };
+    let blocks = vec![b1, b2, b3];
+    let mut txs = std::collections::HashMap::new();
+    let genesis = node.block_at(0);
+    for tx in &genesis.txdata {
+      txs.insert(tx.compute_txid(), (tx.clone(), 0u32));
+    }
+    for (h, b) in blocks.iter().enumerate() {
+      for tx in &b.txdata {
+        txs.insert(tx.compute_txid(), (tx.clone(), h as u32 + 1));
+      }
+    }
+    // schedule 0: an update (= commit) after every block; schedule 1: block 1, then 2+3 together
+    let cuts: Vec<usize> = if sched == 0 { vec![1, 2, 3] } else { vec![1, 3] };
+    out.emit(&cfg_line(flags, chain), "ok");
+    let network = node.core.state().network;
+    let mut pushed = 0;
+    let mut emitted = 0u32;
+    for cut in cuts {
+      while pushed < cut {
+        node.push_block(blocks[pushed].clone());
+        pushed += 1;
+      }
+      points::reset(true);
+      if must_update(&ix).is_err() {
+        return;
+      }
+      for (name, height) in points::take_trace() {
+        match name.as_str() {
+          "update:block-indexed" => {
+            let h = height - 1;
+            assert_eq!(h, emitted);
+            let blk = if h == 0 { genesis.clone() } else { blocks[h as usize - 1].clone() };
+            emit_block(out, h, &blk, network, &txs);
+            out.emit("endblock", "ok");
+            emitted += 1;
+          }
+          "commit:start" => out.emit("commit", "ok"),
+          _ => {}
+        }
+      }
+      points::reset(false);
+      let rows = ix.index.verif_dump().unwrap();
+      let secs = env::sections(&rows);
+      for name in ["chain", "stats", "utxo", "sat2satpoint", "ins", "addr"] {
+        out.emit(&format!("dump {name}"), &secs[name]);
+      }
+    }
+    let kept = ix.index.verif_dump().unwrap().iter().any(|r| r.starts_with(&format!("utxo {x} ")));
+    dist.hit(&format!("dup_scenario_sched{sched}_displaced_output_{}", if kept { "kept" } else { "gone" }));
+  }
+}
+
 /// C15: the same chain under every combination of the optional index flags
 fn flags_case(args: &Args, rng: &mut Rng, out: &mut Streams, dist: &mut Dist, scratch: &Path, case: u64) {
   let chain = if rng.chance(1, 4) { "testnet4" } else { "regtest" };
@@ -308,6 +392,9 @@ fn main() {
   let mut rng = Rng::new(args.seed);
   let scratch = args.out.join("scratch");
   std::fs::create_dir_all(&scratch).unwrap();
+  if args.stream == "sched" {
+    dup_scenario(&mut out, &mut dist, &scratch);
+  }
   for case in 0..args.cases {
     let mut r = rng.fork();
     match args.stream.as_str() {
